@@ -3,18 +3,18 @@ import json, os, re, shutil, subprocess, time
 import vlib, zoogen
 from vlib import run_tlc, tla_set, outdir, ToolError, log
 
-DEVS = ["CountNotFragmented", "BitStringFragmentation", "LenDetUbGe64K"]
+DEVS = ["CountNotFragmented", "BitStringFragmentation", "LenDetUbGe64K", "NoSkipUnknownAdditions"]
 PREFIXES = ('<<"REPLAY", ', '<<"ZOO", ')
 
 
-def tlc_zoo(pid, tier, module="MC_Uper", extra_consts="", dev_props=("C01", "C02", "C10")):
+def tlc_zoo(pid, tier, module="MC_Uper", extra_consts="", dev_props=("C01", "C02", "C10"), no_n=False, all_devs=None):
     """Runs the zoo instance; returns (tlc result, zoo dict, vector file)."""
     d = outdir(pid)
-    devs = sorted({x for p in dev_props for x in vlib.dev_set(p, DEVS)})
+    devs = sorted({x for p in dev_props for x in vlib.dev_set(p, all_devs or DEVS)})
     N = 3 if tier == "quick" else 4
     raw = os.path.join(d, module + ".raw")
-    cfg = ("SPECIFICATION Spec\nCONSTANTS\n  Dev = %s\n  W7 = 7\n  W14 = 14\n  N = %d\n%sINVARIANTS RefOk Emit\nCHECK_DEADLOCK FALSE\n"
-           % (tla_set(devs), N, extra_consts))
+    cfg = ("SPECIFICATION Spec\nCONSTANTS\n  Dev = %s\n  W7 = 7\n  W14 = 14\n%s%sINVARIANTS RefOk Emit\nCHECK_DEADLOCK FALSE\n"
+           % (tla_set(devs), "" if no_n else "  N = %d\n" % N, extra_consts))
     t = run_tlc(pid, module, cfg, replay_to=raw, coverage=False, heap="12g", timeout=2 * 3600, prefixes=PREFIXES)
     if t.violation:
         raise ToolError(module + " (reference level): " + t.violation)
